@@ -70,6 +70,8 @@ def kind_of(e: BaseException) -> str:
         return "unterminated"
     if "duplicated key" in msg:
         return "dupkey"
+    if "not a multiple of 4-bytes" in msg:
+        return "invalid"
     if " count: " in msg and "invalid" in msg:
         return "badcount"
     if "invalid relay flag" in msg:
@@ -225,8 +227,29 @@ CLASSES = {
 }
 
 
+def _ssa_parse(d):
+    from btclib.ecc import ssa
+    return ssa.Sig.parse(d, check_validity=False)
+
+
+def _bms_parse(d):
+    from btclib.ecc import bms
+    return bms.Sig.parse(d, check_validity=False)
+
+
+def _ko_parse(d):
+    from btclib.bip32 import BIP32KeyOrigin
+    return BIP32KeyOrigin.parse(d, check_validity=False)
+
+
 CLASSES.update(P2P_CLASSES)
-OCTETS_ONLY = {"version.parse"}
+CLASSES.update({
+    "ssasig.parse": (_ssa_parse, lambda o: f"{o.r}/{o.s}", _ser, _len_ser, None),
+    "bmssig.parse": (_bms_parse, lambda o: f"{o.rf}/{o.dsa_sig.r}/{o.dsa_sig.s}", _ser, _len_ser, None),
+    "keyorigin.parse": (_ko_parse, lambda o: f"{hx(o.master_fingerprint)}/[{join_with(',', [str(i) for i in o.der_path])}]",
+                        _ser, _len_ser, None),
+})
+OCTETS_ONLY = {"version.parse", "keyorigin.parse"}
 
 
 def run_class(op: str, mode: str, b: bytes) -> str:
@@ -604,7 +627,21 @@ def p_version(rng):
     return p
 
 
-GENS = {"msg.parse": p_msg, "ping.parse": lambda r: Parts().add("int", r.getrandbits(r.choice([1, 64])).to_bytes(8, "little")),
+def p_sig64(rng):
+    e = lambda: rng.choice([b"\x00" * 32, b"\xff" * 32, common.rand_bytes(rng, 32)])  # noqa: E731
+    return Parts().add("hash", e()).add("hash", e())
+
+
+def p_keyorigin(rng):
+    p = Parts().add("hash", common.rand_bytes(rng, 4))
+    for _ in range(rng.choice([0, 1, 3, 5, 255, 256] if rng.random() < 0.1 else [0, 1, 2, 3, 5])):
+        p.add("int", rng.choice([0, 1, 0x80000000, 0x8000002C, 0xFFFFFFFF, rng.getrandbits(32)]).to_bytes(4, "little"))
+    return p
+
+
+GENS = {"ssasig.parse": p_sig64,
+        "bmssig.parse": lambda r: Parts().add("int", bytes([r.choice([0, 26, 27, 31, 42, 43, 255])])).extend(p_sig64(r)),
+        "keyorigin.parse": p_keyorigin, "msg.parse": p_msg, "ping.parse": lambda r: Parts().add("int", r.getrandbits(r.choice([1, 64])).to_bytes(8, "little")),
         "feefilter.parse": lambda r: Parts().add("int", r.choice([0, 1000, -1, 2**63 - 1, -2**63]).to_bytes(8, "little", signed=True)),
         "netaddr.parse": p_netaddr, "addr.parse": p_addr, "inventory.parse": p_inventory, "inv.parse": p_inv,
         "getheaders.parse": p_getheaders, "headers.parse": p_headers, "version.parse": p_version,
@@ -741,7 +778,7 @@ def run(ctx):
     ctx.stream("varint.parse", lines)
 
     # ---- wire classes: valid objects, mutations, vendored seeds
-    per_class = {"msg.parse": 400, "ping.parse": 60, "feefilter.parse": 60, "netaddr.parse": 100, "addr.parse": 150,
+    per_class = {"ssasig.parse": 80, "bmssig.parse": 80, "keyorigin.parse": 150, "msg.parse": 400, "ping.parse": 60, "feefilter.parse": 60, "netaddr.parse": 100, "addr.parse": 150,
                  "inventory.parse": 80, "inv.parse": 150, "getheaders.parse": 150, "headers.parse": 150,
                  "version.parse": 250, "xkey.parse": 150, "varbytes.parse": 300, "outpoint.parse": 200, "witness.parse": 400, "txin.parse": 400,
                  "txout.parse": 400, "tx.parse": 1200, "header.parse": 200, "block.parse": 120}
